@@ -111,3 +111,32 @@ Qed.
 Lemma topk_build_eq_fold_acc : forall k vs,
     c_build (topk_combiner k) vs = fold_acc (topk_combiner k) vs.
 Proof. reflexivity. Qed.
+
+(* merging with a fresh accumulator returns the very same accumulator (Leibniz equality) for the
+   combiners whose accumulators are canonical; AverageF64: the count is equal and the sum is the
+   same rational (x + 0 is not syntactically x in Q) *)
+Lemma identity_exact :
+  (forall V a, c_merge (count_combiner V) a (c_create (count_combiner V)) = a /\
+               c_merge (count_combiner V) (c_create (count_combiner V)) a = a) /\
+  (forall a, c_merge sum_combiner a (c_create sum_combiner) = a /\
+             c_merge sum_combiner (c_create sum_combiner) a = a) /\
+  (forall a, c_merge min_combiner a (c_create min_combiner) = a /\
+             c_merge min_combiner (c_create min_combiner) a = a) /\
+  (forall a, c_merge max_combiner a (c_create max_combiner) = a /\
+             c_merge max_combiner (c_create max_combiner) a = a) /\
+  (forall a, let r := c_merge average_combiner a (c_create average_combiner) in
+             let l := c_merge average_combiner (c_create average_combiner) a in
+             (fst r == fst a)%Q /\ snd r = snd a /\ (fst l == fst a)%Q /\ snd l = snd a) /\
+  (forall T (eqb : T -> T -> bool) a,
+      c_merge (distinct_set_combiner eqb) a (c_create (distinct_set_combiner eqb)) = a /\
+      c_merge (distinct_set_combiner eqb) (c_create (distinct_set_combiner eqb)) a = a).
+Proof.
+  repeat apply conj.
+  - intros V a. cbn. split; ring.
+  - intros a. cbn. split; ring.
+  - intros [a|]; cbn; split; reflexivity.
+  - intros [a|]; cbn; split; reflexivity.
+  - intros [s n]. cbn [average_combiner c_merge c_create fst snd]. repeat split; try ring.
+  - intros T eqb a. cbn [distinct_set_combiner c_merge c_create]. split; [|reflexivity].
+    destruct a; reflexivity.
+Qed.
